@@ -50,6 +50,8 @@ THEOREMS = [
     "Ural.Props.C14.api_tables_ok",
     "Ural.Props.C14.api_unquote_contract",
     "Ural.Props.C14.api_delimiters",
+    "Ural.Props.C14.api_functions",
+    "Ural.Props.C14.qsl_contract",
 ]
 TABLE_OBLIGATIONS = [
     "Ural.Props.C14.tables_percent_unsafe",
@@ -74,7 +76,8 @@ RULE = (
     "random sequences of 3..12 atoms. Each string is run through safely_quote, the four "
     "safely_unquote_* functions and upper_quoted, and through the 28 compositions the theorems "
     "speak about (per unquoter u: q(u s), u(q(u s)), q(u(q(u s))), u(u s), u(upper s), upper(u s); "
-    "upper(upper s), q(upper s), upper(q s), q(q s)) -- model vs implementation -- and through the "
+    "upper(upper s), q(upper s), upper(q s), q(q s)) and through safely_unquote_qsl / safely_quote_qsl / "
+    "their composition on [(s, None), (s, s), ('', s)] -- model vs implementation -- and through the "
     "oracle. A second stream compares the model's UTF-8 segmentation with CPython's decoder on "
     "byte strings. Non-trivial = the string contains a '%' or a space or a non-ASCII character; "
     "distinct = distinct string."
@@ -175,10 +178,17 @@ def ops(case):
     if "bytes" in case:
         return [{"f": "utf8seg", "bytes": case["bytes"]}]
     s = case["s"]
-    return [{"f": "quote", "fn": fn, "s": s} for fn in FNS] + [{"f": "pct", "s": s}, {"f": "chains", "s": s}]
+    return [{"f": "quote", "fn": fn, "s": s} for fn in FNS] + [{"f": "pct", "s": s}, {"f": "chains", "s": s}, {"f": "qsl", "s": s}]
 
 
 UNQUOTERS = FNS[1:5]
+
+
+def _qsl(s):
+    """safely_unquote_qsl / safely_quote_qsl / their composition on [(s, None), (s, s), ("", s)]"""
+    uq, qq = _fn("safely_unquote_qsl"), _fn("safely_quote_qsl")
+    qsl = [(s, None), (s, s), ("", s)]
+    return [[list(p) for p in r] for r in (uq(qsl), qq(qsl), qq(uq(qsl)))]
 
 
 def _chains(s):
@@ -224,7 +234,7 @@ def impl(case):
             return [None]
         return [out]
     s = case["s"]
-    return [lib.guarded(_fn(fn), s) for fn in FNS] + [list(unquote_to_bytes(s)), lib.guarded(_chains, s)]
+    return [lib.guarded(_fn(fn), s) for fn in FNS] + [list(unquote_to_bytes(s)), lib.guarded(_chains, s), lib.guarded(_qsl, s)]
 
 
 def canon(op, out):
